@@ -235,13 +235,18 @@ class Ctx:
         out = chunk + ".tvout"
         with open(out, "w") as f:
             subprocess.run([os.path.join(ROOT, "bin", "tlcrun"), "1", cfg, tla], stdout=f,
-                           stderr=subprocess.STDOUT, env=env, timeout=7200, preexec_fn=_die_with_parent)
+                           stderr=subprocess.STDOUT, env=env, timeout=2400, preexec_fn=_die_with_parent)
         res, vio = None, None
+        nrep = 0
         for line in open(out, errors="replace"):
+            if line.startswith('<<"TVVIOL", '):
+                nrep += 1
             if line.startswith('<<"TVRESULT", '):
                 res = json.loads(json.loads(line.strip()[len('<<"TVRESULT", '):-2]))
             elif line.startswith('<<"TVVIOL", '):
                 vio = json.loads(json.loads(line.strip()[len('<<"TVVIOL", '):-2]))
+        if nrep > 50:
+            raise ToolError(f"trace specification {tvname} branches on {chunk} ({nrep} final states): it must be a deterministic monitor")
         if res is None or vio is None or res["events"] != res["consumed"]:
             log(open(out, errors="replace").read()[-3000:])
             raise ToolError(f"trace validation {tvname} did not consume the trace {chunk}: {res}")
